@@ -418,5 +418,5 @@ Proof.
       let va := eval vm_compute in a in let vb := eval vm_compute in b in
       match va with ROk ?x => match vb with ROk ?y => exists x, y end end end.
     repeat split; vm_compute; reflexivity.
-  - cbn. unfold depth_fuel. repeat constructor.
+  - cbn [f_body]. unfold depth_fuel. repeat constructor.
 Qed.
